@@ -183,6 +183,7 @@ def correspond(ctx):
         ok = len(log) == len(mreads) and all(a[0] == b[0] and b[1] in a[1] for a, b in zip(log, mreads))
         if not ok:
             ctx.mismatch("centre at each read vs ObsAttrib.reads", desc, log, mreads)
+    frontend_correspondence(ctx)
 
 
 # ---- the property, directly ---------------------------------------------------------------------------------
@@ -290,6 +291,73 @@ def attribution_oracle(args):
     return None
 
 
+def frontend_attribution(kind, obs_specs, order, noisy, parallel, ntraj=3):
+    """The real front-end (_run_strong_sim / _run_analog) with the backend replaced by a stub that returns, for every trajectory,
+    one row per entry of sorted_observables filled with a tag that identifies THAT observable object; the pool is the scripted
+    executor of C13.  Returns, per user observable (in the user's listing order), the tags found in its results."""
+    import mqt.yaqs.simulator as S
+    from qiskit import QuantumCircuit
+
+    from drivers.C13 import Sched
+    from mqt.yaqs.core.data_structures.networks import MPO, MPS
+    from mqt.yaqs.core.data_structures.noise_model import NoiseModel
+    from mqt.yaqs.core.data_structures.simulation_parameters import AnalogSimParams, Observable, StrongSimParams
+
+    obs = [Observable(obs_specs[i][0], obs_specs[i][1]) if obs_specs[i][1] is not None else Observable(obs_specs[i][0]) for i in order]
+    tag = {id(o): 100.0 + j for j, o in enumerate(obs)}
+    L = 4
+    if kind == "strong":
+        p = StrongSimParams(obs, num_traj=ntraj, show_progress=False)
+    else:
+        p = AnalogSimParams(obs, elapsed_time=0.2, dt=0.1, num_traj=ntraj, show_progress=False)
+    nm = NoiseModel([{"name": "pauli_z", "sites": [0], "strength": 0.1}]) if noisy else None
+    saved = (S.digital_tjm, S.analog_tjm_1, S.analog_tjm_2, S.ProcessPoolExecutor, S.wait, S.available_cpus)
+
+    def stub(args, p=p):
+        return [np.full(o.trajectories.shape[1:] if o.trajectories is not None else (1,), tag[id(o)]) for o in p.sorted_observables]
+
+    S.digital_tjm = S.analog_tjm_1 = S.analog_tjm_2 = stub
+    try:
+        if parallel:
+            sched = Sched([(0, "Ok")] * (4 * ntraj + 8))
+            S.ProcessPoolExecutor, S.wait = sched.executor, sched.wait
+            S.available_cpus = lambda: 3
+        if kind == "strong":
+            qc = QuantumCircuit(L)
+            qc.h(0)
+            S._run_strong_sim(MPS(L), qc, p, nm, parallel=parallel)  # noqa: SLF001
+        else:
+            S._run_analog(MPS(L), MPO.ising(L, 1, 0.5), p, nm, parallel=parallel)  # noqa: SLF001
+    finally:
+        S.digital_tjm, S.analog_tjm_1, S.analog_tjm_2, S.ProcessPoolExecutor, S.wait, S.available_cpus = saved
+    return [(sorted({float(x) for x in np.ravel(np.real(o.results))}), tag[id(o)]) for o in obs]
+
+
+def frontend_correspondence(ctx):
+    spec = [("z", 3), ("x", 0), ("y", 2), ("max_bond", None), ("zz", [2, 3]), ("z", 0), ("x", 1), ("total_bond", None)]
+    for k in range(ctx.scale(16, 120)):
+        order = [int(i) for i in ctx.rng.permutation(len(spec))][: int(ctx.rng.integers(3, len(spec) + 1))]
+        kind = ("strong", "analog")[k % 2]
+        noisy = bool((k // 2) % 2)
+        parallel = bool((k // 4) % 2)
+        try:
+            got = frontend_attribution(kind, spec, order, noisy, parallel)
+        except Exception as e:  # noqa: BLE001
+            ctx.mismatch("front-end raised", {"kind": kind, "order": order, "noisy": noisy, "parallel": parallel}, repr(e), "-", key="frontend")
+            continue
+        ctx.case(nontrivial_key=("frontend", kind, tuple(order), noisy, parallel), validated=True)
+        ctx.count(f"frontend_{kind}_{'parallel' if parallel else 'serial'}_{'noisy' if noisy else 'clean'}")
+        wrong = [(order[j], vals, t) for j, (vals, t) in enumerate(got) if vals != [t]]
+        if wrong:
+            # ObsAttrib.each_gets_its_own: every object holds the value computed for it
+            ctx.mismatch("rows written back by the front-end vs ObsAttrib.stitched (each observable object receives its own row)",
+                         {"front_end": kind, "listing": [spec[i] for i in order], "noisy": noisy, "parallel": parallel},
+                         [(spec[i][0], spec[i][1], vals) for i, vals, _ in wrong][:4], "own tag", key="frontend")
+            ctx.violation("frontend-attribution", f"{kind} front-end (noisy={noisy}, parallel={parallel}): observable {spec[wrong[0][0]]} listed at position "
+                          f"{order.index(wrong[0][0])} received the values {wrong[0][1]} computed for another observable (its own tag is {wrong[0][2]})",
+                          {"oracle": "frontend", "kind": kind, "order": order, "noisy": noisy, "parallel": parallel})
+
+
 def search(ctx):
     for k in range(ctx.scale(60, 1500)):
         a = dict(seed=int(ctx.rng.integers(0, 2**31)), L=int(ctx.rng.integers(2, 7)), chi=int(ctx.rng.integers(1, 5)))
@@ -310,6 +378,11 @@ def search(ctx):
 
 def replay(ctx, data):
     rp = data.get("replay", data)
+    if rp.get("oracle") == "frontend":
+        spec = [("z", 3), ("x", 0), ("y", 2), ("max_bond", None), ("zz", [2, 3]), ("z", 0), ("x", 1), ("total_bond", None)]
+        got = frontend_attribution(rp["kind"], spec, rp["order"], rp["noisy"], rp["parallel"])
+        bad = [(vals, t) for vals, t in got if vals != [t]]
+        return f"observables hold foreign rows: {bad[:3]}" if bad else None
     if rp.get("oracle") == "value":
         return value_oracle(rp["args"])
     if rp.get("oracle") == "attr":
